@@ -236,6 +236,18 @@ Proof.
     right. exact (IH o' Ho' y H).
 Qed.
 
+Lemma order_prefix_in s l x : In x (order_prefix s l) -> In x l.
+Proof.
+  induction l as [|p r IH]; cbn [order_prefix]; [auto|]. destruct (breaker s p).
+  - intros [<-|[]]. now left.
+  - intros [<-|H]; [now left|right; auto].
+Qed.
+Lemma alloc_orders_in s o : In o (alloc_orders s) -> forall x, In x o -> In x (reserved s).
+Proof.
+  unfold alloc_orders. intros Ho x Hx. apply nodup_In in Ho. apply in_map_iff in Ho as (l & <- & Hl).
+  apply order_prefix_in in Hx. pose proof (perms_in _ _ Hl x Hx) as Hf. apply filter_In in Hf. tauto.
+Qed.
+
 Definition as_post (b : bool) (c0 : list N) (s s' : pset) : Prop :=
   H b c0 s' /\ F s s' /\ pending s' = 0%N /\
   (forall q, rep_of s' q = iter (N.to_nat (pending s)) spec_tick (rep_of s q)).
@@ -252,7 +264,7 @@ Proof.
   { apply (wp_for_each order reserved_body (fun s' => inv_as b c0 s1 s')).
     - intros s' I'. split; [now left|exact I'].
     - intros x Hx s' I'. eapply wp_conseq. apply (wp_reserved_body b c0 s1 s' x I').
-      + destruct I' as (_ & (_ & _ & _ & ->) & _). apply memN_true. exact (perms_in _ _ Hord x Hx).
+      + destruct I' as (_ & (_ & _ & _ & ->) & _). apply memN_true. exact (alloc_orders_in _ _ Hord x Hx).
       + intros c s'' (Hc & I''). destruct c; [exact I''|split; [exact Hc|exact I'']|].
         destruct Hc as [Hc|Hc]; discriminate.
     - exact IA1. }
